@@ -20,6 +20,7 @@ import (
 	"flag"
 	"fmt"
 	"os"
+	"os/exec"
 	"path/filepath"
 	"sort"
 	"strings"
@@ -303,6 +304,22 @@ func setStore(kv ethdb.KeyValueStore, want []kvpair) error {
 	return nil
 }
 
+// TODO-KNOWN-FINDING (C23-F4, spec/store/NOTES.md): on the leveldb backend batch.DeleteRange(start, end) with
+// start > end panics inside goleveldb ("slice bounds out of range" in tFiles.newIndexIterator) as soon as the
+// database has tables below level 0; every other backend treats the inverted range as empty, which is also what
+// KV.tla says (and what the QEager expansion of an empty range is: nothing).  The driver therefore does not issue
+// that one call on leveldb targets (the specification's outcome - nothing buffered - is still checked) and counts
+// it; `-mode f4` reproduces the panic in a child process.
+var skippedF4 int
+
+func invertedOnLeveldb(t *target, a, e []byte) bool {
+	if !strings.HasSuffix(t.name, "leveldb") || a == nil || e == nil || bytes.Compare(a, e) <= 0 {
+		return false
+	}
+	skippedF4++
+	return true
+}
+
 func applyOp(w interface {
 	ethdb.KeyValueWriter
 	ethdb.KeyValueRangeDeleter
@@ -365,6 +382,9 @@ func (w *world) set(s pstate) error {
 	}
 	w.batch = kv.NewBatch()
 	for _, o := range s.Batch {
+		if o.T == "rng" && invertedOnLeveldb(w.t, intsToBytes(o.K), intsToBytes(o.E)) {
+			continue // an inverted range buffers nothing that matters (and panics on leveldb: C23-F4)
+		}
 		if err := applyOp(w.batch, o); err != nil {
 			return fmt.Errorf("batch %v: %v", o, err)
 		}
@@ -423,7 +443,9 @@ func (w *world) do(act map[string]any, from pstate) string {
 	case "BDelete":
 		must(w.batch.Delete(b("k")))
 	case "BDeleteRange":
-		must(w.batch.DeleteRange(b("a"), b("e")))
+		if !invertedOnLeveldb(w.t, b("a"), b("e")) {
+			must(w.batch.DeleteRange(b("a"), b("e")))
+		}
 	case "BWrite":
 		must(w.batch.Write())
 	case "BReset":
@@ -740,7 +762,9 @@ func runRecord(prefix string, targets []*target, seed int64, ntraces, steps int,
 					emit(tl.M{"op": "BDelete", "k": fromBytes(k), "size": w.batch.ValueSize(), "pfx": len(t.prefix)})
 				case c < 64 && !written:
 					a, e := randOpt(r), randOpt(r)
-					must(w.batch.DeleteRange(a, e))
+					if !invertedOnLeveldb(t, a, e) {
+						must(w.batch.DeleteRange(a, e))
+					}
 					emit(tl.M{"op": "BDeleteRange", "a": fromOpt(a), "e": fromOpt(e)})
 				case c < 69 && !written:
 					must(w.batch.Write())
@@ -817,8 +841,48 @@ func runRecord(prefix string, targets []*target, seed int64, ntraces, steps int,
 	sum.Rule = "seeded random interface-call sequences (keys over {00,61,62,ff}^<=3, nil/empty bounds, iterators held across writes, batches with replay/reset, reopen) on each target; distinct = distinct operation-name sequences"
 }
 
+// runF4 reproduces C23-F4 in a child process: leveldb with a table below level 0, then an inverted
+// batch.DeleteRange.
+func runF4(dir string, sum *tl.Summary) {
+	self, err := os.Executable()
+	if err != nil {
+		tl.Fatal("executable: %v", err)
+	}
+	cmd := exec.Command(self, "-mode", "f4child", "-dir", dir)
+	var outb bytes.Buffer
+	cmd.Stdout, cmd.Stderr = &outb, &outb
+	runErr := cmd.Run()
+	switch {
+	case runErr != nil && strings.Contains(outb.String(), "slice bounds out of range"):
+		sum.Extra["f4"] = "panic: slice bounds out of range (goleveldb tFiles.newIndexIterator)"
+	case runErr != nil:
+		tl.Fatal("f4 child failed differently: %v\n%s", runErr, outb.String())
+	default:
+		sum.Extra["f4"] = "no panic"
+	}
+	sum.Evaluations = 1
+	sum.Distinct = 1
+	sum.Rule = "directed reproduction of C23-F4 in a child process"
+	sum.Sample(tl.M{"f4": sum.Extra["f4"]})
+}
+
+func runF4Child(dir string) {
+	db, err := leveldb.New(filepath.Join(dir, "f4"), 16, 16, "", false)
+	if err != nil {
+		tl.Fatal("open leveldb: %v", err)
+	}
+	for _, k := range []string{"a", "b", "c"} {
+		must(db.Put([]byte(k), []byte("v")))
+	}
+	must(db.Compact(nil, nil))
+	b := db.NewBatch()
+	err = b.DeleteRange([]byte("d"), []byte("a")) // contract: the empty range
+	fmt.Println("DeleteRange(d,a) returned", err)
+	db.Close()
+}
+
 func main() {
-	mode := flag.String("mode", "edges", "edges|record")
+	mode := flag.String("mode", "edges", "edges|record|f4")
 	in := flag.String("in", "", "edges json")
 	tg := flag.String("targets", "mem,pebble,leveldb,tmem,tpebble,tleveldb", "targets")
 	dir := flag.String("dir", "", "scratch directory for disk backends")
@@ -838,11 +902,19 @@ func main() {
 		defer os.RemoveAll(d)
 		*dir = d
 	}
+	if *mode == "f4child" {
+		runF4Child(*dir)
+		return
+	}
 	var targets []*target
-	for _, name := range strings.Split(*tg, ",") {
-		targets = append(targets, openTarget(name, *dir))
+	if *mode != "f4" {
+		for _, name := range strings.Split(*tg, ",") {
+			targets = append(targets, openTarget(name, *dir))
+		}
 	}
 	switch *mode {
+	case "f4":
+		runF4(*dir, sum)
 	case "edges":
 		runEdges(*in, targets, sum, *pending)
 	case "record":
@@ -853,6 +925,7 @@ func main() {
 	for _, t := range targets {
 		t.close()
 	}
+	sum.Extra["f4_calls_not_issued"] = skippedF4
 	sum.Write(*out)
 	if len(sum.Violations) > 0 {
 		os.Exit(1)
